@@ -470,6 +470,9 @@ func solveOne(o *Obligation, wd *workDir, timeoutS int, agree bool) {
 			}
 		}
 		best.Raw = fmt.Sprintf("agreement: %d solvers unsat", n)
+		if n < 2 {
+			best.Solver += "(single)" // only one portfolio member answered within the timeout
+		}
 	}
 	o.Result = best
 }
